@@ -11,6 +11,21 @@ CHECKS = {
  "C01": dict(engine=A, technique="explicit-state enumeration of (chart, configuration, event) over the real dispatch vs UML reference model",
    text="Every single-step scenario (all forest shapes <= 8 states, every current state, every answering state on the active path, every target, every chain of initial transitions) is executed on the real processor (plain, instrumented, queued hosts) and the ordered entry/exit/init log, resting state and temp/state invariant are compared with a 40-line reference model; each step is repeated from the reached configuration. Exhaustive within the bound; spine charts of depth up to 12/14 push path lengths past the internal buffer.",
    note="Bounded: forests <= 8 (quick) / 9 (thorough) states on the plain host, <= 6/7 on wrapped hosts; memorylessness between steps is checked, not assumed; reference model trusted.", ref="3, 6/C01"),
+ "C02": dict(engine=A, technique="explicit-state enumeration of (chart, configuration, reaction vector) over the real dispatch vs reference model",
+   text="Every forest <= 7 states, every current state, every reaction vector along the active path (defer/decline below the answerer; handle or transition at it; armed reactions above it; nobody answers) is dispatched twice on the real processor on 4 hosts; the offer log, absence of entry/exit/init actions, unchanged configuration and the ignored flag are compared with the reference model.",
+   note="Bounded forests <= 7 (quick) / 9 (thorough); transition targets limited (C01 covers targets).", ref="3, 6/C02"),
+ "C03": dict(engine=A, technique="explicit-state enumeration of (chart, start state, init chain) over the real start_at vs reference model",
+   text="Every forest <= 9 states (plus spines to depth 14), every start state and every chain of initial transitions below it is started on the real processor on 4 hosts and both handler styles; the ordered entry/init log (exactly-once, nothing exited) and the resting state are compared with the reference model.",
+   note="Bounded forests <= 9 (quick) / 10 (thorough) on the plain host, <= 7/8 on wrapped hosts.", ref="3, 6/C03"),
+ "C22": dict(engine=A, technique="explicit-state enumeration of (chart, configuration, query, argument) over the real is_in/child_state",
+   text="Every forest <= 7 states, every configuration reached by start_at and by a transition from every other state, every query argument (each state and top): answers compared with the parent map, child_state must fail when the argument does not enclose the current state, state.fun/temp.fun/state_name/state_fn must be unchanged and the next step must match the reference model.",
+   note="Bounded forests <= 7 (quick) / 8 (thorough); 'fails' means raises.", ref="6/C22"),
+ "C23": dict(engine=A, technique="explicit-state enumeration over the C01/C02/C03 scenario families comparing state_name/state_fn/current_state with the reference configuration",
+   text="After start_at and after each step of every C01, C02 and C03 scenario on forests <= 6 and all 4 hosts, state_name, state_fn (handler or the function it decorates) and current_state() are compared with the reference model's configuration.",
+   note="Bounded forests <= 6 (quick) / 7 (thorough).", ref="6/C23"),
+ "C24": dict(engine=A, technique="explicit-state enumeration of malformed charts (one malformation each) reached by start_at and by dispatch, with a call-budget watchdog",
+   text="Every forest <= 6 states with exactly one malformation (initial transition to self/ancestor/sibling/elsewhere through every well-formed init chain; handler returning None for user signals or always) reached by start_at and by a transition from every resting state on 4 hosts must raise HsmTopologyException within a 3000-call budget; a hang, a normal return or another exception is a violation.",
+   note="Transitions into an always-None state are only required to terminate (the event is not offered to the faulty state there). Bounded forests <= 6 (quick) / 7 (thorough).", ref="6/C24"),
 }
 NOT_YET = "check not built yet in this round (planned, see DESIGN.md section 6)"
 
